@@ -116,6 +116,8 @@ class Check(PropCheck):
                         perms = rng.sample(perms, min(len(perms), 12))
                     for perm in perms:
                         t = sh.copy(); gen.name_leaves(t, list(perm))
+                        if rng.random() < 0.3:
+                            gen.name_internals(t, rng, 0.8, 0.6)
                         vs, mapping = self.variants(t, rng, list(perm))
                         ops = []
                         for vi, v in enumerate(vs):
@@ -130,12 +132,20 @@ class Check(PropCheck):
             r0 = rng.random()
             names = ['t%d' % i for i in range(n)] if r0 < 0.4 else (['Tip_%d' % i for i in range(n)] if r0 < 0.7 else
                      [('x%d' if i % 2 else 'X%d') % i for i in range(n)] if r0 < 0.85 else [chr(ord('a') + (i % 26)).upper() * (i % 2) + chr(ord('a') + (i % 26)) * (1 - i % 2) + str(i // 26) for i in range(n)])
-            t = gen.rand_tree(rng, n, 'none', p_multi=rng.choice([0, 0.3]), p_unary=0.0, internal_names=0.2, names=names)
+            t = gen.rand_tree(rng, n, 'none', p_multi=rng.choice([0, 0.3]), p_unary=0.0, internal_names=rng.choice([0.2, 0.8]), names=names)
             vs, mapping = self.variants(t, rng, names)
             ops = []
             for vi, v in enumerate(vs):
                 ops += ['sel %d' % vi, gen.parse_op(gen.to_newick(v)), 'dump', 'partitions']
             cases.append(Case('r%d' % j, ops, {'mapping': mapping}))
+        for j in range(60 if self.tier == 'quick' else 1000):
+            # a refused operation must leave nothing behind: prune, add_child on the removed id (refused), bipartitions
+            n = rng.randint(4, 10)
+            names = ['f%d' % i for i in range(n)]
+            t = gen.rand_tree(rng, n, 'none', p_multi=0.2, internal_names=0.3, names=names)
+            ops = ['sel 0', gen.parse_op(gen.to_newick(t)), 'pick leaf %d' % rng.randint(0, 10 ** 6), 'prune $0',
+                   'add_child $0 %s - -' % vf.enc_str('ghost'), 'merge $0 $0 - - - -', 'compress', 'dump', 'partitions']
+            cases.append(Case('g%d' % j, ops, {'rename_seq': False, 'single': True}))
         for j in range(80 if self.tier == 'quick' else 1500):
             n = rng.randint(4, 12)
             names = ['m%02d' % i for i in range(n)]
